@@ -89,6 +89,79 @@ Example C20_nonvacuous_fragment :
   rdm [S "A"] [(0, 1, 0)] [(0, S "A"); (1, S "B")] = Ok tt.
 Proof. exact missing_fragment_example. Qed.
 
+(** ======================= the same faults over the OTHER components' models ======================= *)
+From CGV Require Import Base.NxGraph Reader.ReaderImpl Reader.ReaderLemmas Reader.ReaderSim Reader.ReaderRing
+     Resolve.GraphOps Resolve.Pipeline Frag.NDict Frag.StripImpl Frag.FragText
+     Dialect.ReaderFaults Dialect.FragAnnot Dialect.CopyAnnot Dialect.ResolveFaults.
+
+(** ---- the real reader model (Reader/ReaderImpl.v) ---- *)
+(** an error inside the loop iteration of ANY node (= any reachable loop state) is the result *)
+Theorem C20_reader_error_at : forall fo pattern pc s st pc1 nm rest e,
+  reaches fo (last pattern " "%char) pattern init_state pc s st ->
+  next_node pc s = Some (pc1, nm, rest) -> node_step fo st pc1 nm rest = Err e ->
+  read_cgsmiles fo pattern = Err e.
+Proof. exact read_err_at. Qed.
+(** an Err of the dialect parser on the text of any node is the result of read_cgsmiles *)
+Theorem C20_reader_annotation_error : forall fo pattern pc s st pc1 nm rest e,
+  reaches fo (last pattern " "%char) pattern init_state pc s st ->
+  next_node pc s = Some (pc1, nm, rest) -> pre_parse_ok st pc1 rest ->
+  parse_graph_base_node fo nm = Err e ->
+  read_cgsmiles fo pattern = Err e.
+Proof. exact annotation_error_propagates. Qed.
+(** a ring bond closing over an edge that exists when it is checked: "double", at any node position *)
+Theorem C20_reader_duplicate_rejected : forall fo pattern pc s st pc1 nm rest x rs rdx bo n bo' a pre u v o post g',
+  reaches fo (last pattern " "%char) pattern init_state pc s st ->
+  next_node pc s = Some (pc1, nm, rest) ->
+  opened st pc1 = Ok x ->
+  ring_scan (s_current st) rest 0 (clean_st (s_cycle st) []) = Ok (rs, rdx) ->
+  bond_expr rest rdx = Ok bo -> nmon_expr rest bo = Ok (n, bo') -> 0 < n ->
+  parse_graph_base_node fo nm = Ok a -> ahas (S "node_for_adding") a = false ->
+  (fst (fst x) = true -> snd (fst x) <> []) ->
+  r_ces rs = pre ++ (u, v, o) :: post ->
+  add_cycle_edges (graph_at_check st a) pre = Ok g' -> has_edge g' u v = true ->
+  read_cgsmiles fo pattern = Err (ESyntax (S "double")).
+Proof. exact reader_duplicate_rejected. Qed.
+(** a ring index left open (the reader component's theorems, Reader/ReaderRing.v): whenever the marker
+    trace of the text does not end empty - wherever the unclosed marker stands, inside branches and
+    multiplied units too - no graph is returned, and if the loop runs to its end the error is "dangling" *)
+Theorem C20_reader_dangling_never_a_graph : forall fo s, marker_trace s <> Ok [] -> forall g, read_cgsmiles fo s <> Ok g.
+Proof. exact open_marker_never_a_graph. Qed.
+Theorem C20_reader_dangling_rejected : forall fo s st k ks,
+  main_loop (Datatypes.S (length s)) fo (last s " "%char) s init_state = Ok st -> marker_trace s = Ok (k :: ks) ->
+  read_cgsmiles fo s = Err (ESyntax (S "dangling")).
+Proof. exact open_marker_dangling. Qed.
+
+(** ---- strip_bonding_descriptors (Frag/StripImpl.v) ---- *)
+Theorem C20_strip_annotation_error : forall fo toks dc pre body annot post sp e,
+  FragText.wf toks dc = true -> excluded toks dc = false ->
+  decorate toks dc = pre ++ ITok (TBracket body annot) :: post ->
+  spec_run fo sinit pre = Ok sp -> fragment_node_parser fo (annot_text annot) = Err e ->
+  strip_bonding_descriptors fo (FragText.render (decorate toks dc)) = Err e.
+Proof. exact strip_annotation_error_propagates. Qed.
+Theorem C20_strip_machine_error : forall fo pre post m atom attr rec e,
+  run fo init pre = Ok m -> m_mode m = MAtom atom attr rec -> fragment_node_parser fo attr = Err e ->
+  strip_bonding_descriptors fo (pre ++ "]"%char :: post) = Err e.
+Proof. exact strip_machine_error. Qed.
+
+(** ---- the resolver's own model (Resolve/GraphOps.v, Pipeline.v) ---- *)
+Theorem C20_resolver_missing_fragment : forall fd pre mn post st fv w d o,
+  fold_res (disc_step fd) pre (gempty, []) = Ok st ->
+  aget (S "fragname") (na mn) = Some fv -> lookup_fragment fd fv = None ->
+  Forall (fun wa => aget (S "order") (snd wa) <> None) (nadj mn) ->
+  In (w, d) (nadj mn) -> aget (S "order") d = Some o -> order_is_zero o = false ->
+  resolve_disconnected fd (pre ++ mn :: post) = Err (ESyntax (S "nofrag")).
+Proof. exact missing_fragment_rejected_at. Qed.
+Theorem C20_resolver_error_is_the_result : forall legacy aa fd prev tr e,
+  resolve_disconnected fd (set_nodes_from prev (S "fragname") (get_node_attributes prev (S "atomname"))) = Err e ->
+  resolve_step legacy aa fd prev tr = Err e.
+Proof. exact resolve_step_propagates. Qed.
+
+Example C20_nonvacuous_reader :
+  read_cgsmiles (fun _ => None) (S "{[#A]1[#B]([#C]2[#D]2)[#E]1}") = Err (ESyntax (S "double")) /\
+  read_cgsmiles (fo_of_table [(S "1", Some (S "1.0"))]) (S "{[#A]([#B;q=1])[#C;q=x=y]}") = Err (ESyntax (S "toomany_eq")) /\
+  exists g, read_cgsmiles (fo_of_table [(S "1", Some (S "1.0"))]) (S "{[#A]([#B;q=1])[#C]}") = Ok g.
+Proof. exact reader_faults_example. Qed.
+
 Print Assumptions C20_two_eq_rejected.
 Print Assumptions C20_two_eq_rejected_at_every_position.
 Print Assumptions C20_too_many_positional_rejected.
@@ -100,3 +173,9 @@ Print Assumptions C20_dangling_rejected.
 Print Assumptions C20_duplicate_rejected.
 Print Assumptions C20_missing_fragment_rejected.
 Print Assumptions C20_coarse_fragment_charge_refuted.
+Print Assumptions C20_reader_error_at.
+Print Assumptions C20_reader_annotation_error.
+Print Assumptions C20_reader_duplicate_rejected.
+Print Assumptions C20_reader_dangling_never_a_graph.
+Print Assumptions C20_strip_annotation_error.
+Print Assumptions C20_resolver_missing_fragment.
